@@ -76,12 +76,19 @@ impl Inner {
             *entry = value;
         }
 
+        // Read the generation of every histogram before draining it: a sample that arrives after the drain bumps the
+        // generation past the one we hand to the recency tracker, so it counts as a change at the next observation
+        // instead of being taken for one this observation has already reported.
+        let histogram_generations = self
+            .registry
+            .get_histogram_handles()
+            .into_iter()
+            .map(|(key, histogram)| (key, histogram.get_generation()))
+            .collect::<Vec<_>>();
         // Update distributions
         self.drain_histograms_to_distributions();
         // Remove expired histograms
-        let histogram_handles = self.registry.get_histogram_handles();
-        for (key, histogram) in histogram_handles {
-            let gen = histogram.get_generation();
+        for (key, gen) in histogram_generations {
             if !self.recency.should_store_histogram(&key, gen, &self.registry) {
                 // Since we store aggregated distributions directly, when we're told that a metric
                 // is not recent enough and should be/was deleted from the registry, we also need to
